@@ -173,6 +173,14 @@ def run(ctx, rep):
                 if dead:
                     rep.ok('P3', key, dead, site)
                     continue
+            # a catch-all arm that no variant can reach: every variant of the matched enum parameter is either named by a
+            # sibling arm or leaves the function earlier (`if let Some(x) = lookup(param) { return .. }`) — decided by
+            # specialising the site's guard frames to each variant (vlib/special.py)
+            if s['kind'] in ('panic', 'unreachable', 'todo', 'unimplemented') and last_arm and g:
+                why = dead_for_every_variant(ctx, g[0], frames, last_arm)
+                if why:
+                    rep.ok('P3', key, why, site)
+                    continue
             # unit-enum printers: `_ => unreachable!()` under RustEnum::Unit
             if s['kind'] == 'unreachable' and any(v == 'RustEnum::Unit' for v in arm_variants):
                 if unit_enum_invariant(ctx, prog, rep):
@@ -287,6 +295,43 @@ def abstract(snippet):
         else:
             out.append(t)
     return ''.join(out)
+
+
+def dead_for_every_variant(ctx, f, frames, arm):
+    from .. import special
+    sc = vt.unvar(arm.get('scrut'))
+    while isinstance(sc, dict) and sc.get('k') in ('ref', 'deref', 'paren'):
+        sc = vt.unvar(sc.get('v'))
+    if not (isinstance(sc, dict) and sc.get('k') == 'atom' and sc.get('param') and not sc.get('path')):
+        return None
+    param = sc['root']
+    pty = next((str(p_.get('ty') or '') for p_ in f['params'] if p_['name'] == param), '')
+    enum_name = pty.replace('&', '').replace('mut ', '').strip().split('<')[0].split('::')[-1]
+    enums = [i for i in ctx.astq['items'] if i['kind'] == 'enum' and i['name'] == enum_name]
+    if len(enums) != 1:
+        return None
+    G = ctx.x(f)
+    # the frames of the site in the inlined view (helpers such as the look-up are expanded there): same line, longest guard
+    vframes = frames
+    for coll in ('panics', 'calls', 'sites'):
+        for x in G.get(coll, []):
+            if x.get('guard') and len(x['guard']) >= len(vframes) and x.get('line') == arm.get('line') or (x.get('guard') and x['guard'][-1:] == frames[-1:] and len(x['guard']) > len(vframes)):
+                vframes = x['guard']
+    live = []
+    for var in enums[0]['variants']:
+        V = var['name']
+        verdicts = []
+        for fr in vframes:
+            t = special.frame_truth(fr, param, V)
+            if t is None and fr.get('k') == 'arm' and special._is_param(fr.get('scrut'), param):
+                named = any(V in special._short(a.get('variants', [])) for m in G.get('matches', []) if vt.ckey(m.get('scrut')) == vt.ckey(fr.get('scrut')) and any(a2.get('line') == fr.get('line') for a2 in m.get('arms', [])) for a in m.get('arms', []))
+                t = not named
+            verdicts.append(t)
+        if not any(t is False for t in verdicts):
+            live.append(V)
+    if live:
+        return None
+    return f"dead arm: for each of the {len(enums[0]['variants'])} variants of {enum_name} either a sibling arm names it or the function has returned before the match (specialisation of the guard frames per variant)"
 
 
 def dead_param_variant(prog, s, arm):
